@@ -31,6 +31,14 @@ Theorem c31_delivered :
     owed s = false /\ (buf s = 1 \/ cons_since s = true).
 Proof. exact coalescer_delivered. Qed.
 
+(* ... also for a slow consumer: a strobe arms the timer whether or not an older
+   signal is still sitting in the channel, so [c31_delivered] applies to it. *)
+Theorem c31_strobe_arms :
+  forall w listen s, cdone s = false ->
+    exists s', cstep w listen s AStrobe = Some s' /\ timer s' = Some (now s + w)%N /\ owed s' = true /\
+               last s' = Some (now s) /\ buf s' = buf s.
+Proof. exact coalescer_strobe_arms. Qed.
+
 (* c31_burst: the timer case runs exactly once per burst (attempts + the burst
    still owed = bursts); signals placed <= attempts; nothing is created or lost
    in the channel; a strobe less than w after the previous one joins its burst,
@@ -64,13 +72,16 @@ Proof. exact coalescer_after_terminate. Qed.
    received than the strobes so far can form bursts, and (2) after a strobe
    (before any Terminate) the next strobe / Terminate / end of observation /
    signal of a listening consumer comes no later than the strobe's return +
-   window + slack, and a later look at the channel never finds it empty. *)
+   window + slack, and a later look at the channel never finds it empty.  Only
+   a signal that can be the strobe's own -- received no earlier than (call of
+   the strobe) + window - slack -- discharges it ([quiet_for]): an older signal
+   taken by a slow consumer after the strobe does not. *)
 Theorem c31_checker_sound :
   forall w listen sl evs, check_C31 w sl listen evs = true ->
     (forall P Q, evs = P ++ Q -> count_sig P <= bursts_upper w sl None false P) /\
     (forall A c r B x D', evs = A ++ ES c r :: B ++ x :: D' ->
-       forallb (fun e => negb (is_tc e)) A = true -> forallb (quiet_for c) B = true ->
-       within listen c (r + w + sl)%N x).
+       forallb (fun e => negb (is_tc e)) A = true -> forallb (quiet_for w sl c) B = true ->
+       within w listen sl c (r + w + sl)%N x).
 Proof. exact check_C31_sound. Qed.
 
 (* every history of the automaton is accepted, whatever the slack *)
@@ -96,7 +107,18 @@ Example c31_example_rejects :
   check_C31_code 30 15 true [ES 0 1; ES 20 21; EG 60; ES 100 101; EG 140; EEnd 400] = 0.
 Proof. exact coalescer_example_rejects. Qed.
 
+Example c31_example_slow_consumer :
+  (exists s, crun 3 false cinit coalescer_slow_consumer = Some s /\
+     chistory s = [ES 0 0; ES 7 7; EG 8; EG 12; EEnd 12] /\
+     put s = 2 /\ taken s = 2 /\ check_C31 3 0 false (chistory s) = true) /\
+  check_C31_code 30 5 false [ES 0 1; ES 100 101; EG 110; EP 200; EEnd 300] = 2 /\
+  check_C31_code 30 5 true [ES 0 1; ES 100 101; EG 110; EEnd 300] = 2 /\
+  check_C31_code 30 5 false [ES 0 1; ES 100 101; EG 150; EP 200; EEnd 300] = 0 /\
+  check_C31_code 30 5 false [ES 0 1; ES 100 101; EG 110; EG 200; EEnd 300] = 0.
+Proof. exact (conj coalescer_slow_consumer_run coalescer_slow_consumer_rejects). Qed.
+
 Print Assumptions c31_at_most_one.
+Print Assumptions c31_strobe_arms.
 Print Assumptions c31_delivered.
 Print Assumptions c31_burst.
 Print Assumptions c31_burst_gap.
